@@ -3,10 +3,18 @@ module polysim
 go 1.26.8
 
 require (
+	github.com/btcsuite/btcd v0.21.0-beta
+	github.com/btcsuite/btcutil v1.0.3-0.20201208143702-a53e38424cce
+	github.com/confio/ics23/go v0.6.6
+	github.com/cosmos/cosmos-sdk v0.39.1
+	github.com/ethereum/go-ethereum v1.9.25
 	github.com/ontio/ontology-crypto v1.0.9
 	github.com/ontio/ontology-eventbus v0.9.1
 	github.com/polynetwork/poly v0.0.0
 	github.com/syndtr/goleveldb v1.0.1-0.20200815110645-5c35d600f0ca
+	github.com/tendermint/go-amino v0.15.1
+	github.com/tendermint/tendermint v0.33.7
+	github.com/tendermint/tm-db v0.5.1
 	golang.org/x/crypto v0.0.0-20220214200702-86341886e292
 )
 
@@ -19,21 +27,16 @@ require (
 	github.com/aristanetworks/goarista v0.0.0-20190607111240-52c2a7864a08 // indirect
 	github.com/bits-and-blooms/bitset v1.2.1 // indirect
 	github.com/blocktree/go-owcrypt v1.1.10 // indirect
-	github.com/btcsuite/btcd v0.21.0-beta // indirect
 	github.com/btcsuite/btclog v0.0.0-20170628155309-84c8d2346e9f // indirect
-	github.com/btcsuite/btcutil v1.0.3-0.20201208143702-a53e38424cce // indirect
 	github.com/btcsuite/go-socks v0.0.0-20170105172521-4720035b7bfd // indirect
 	github.com/buger/jsonparser v1.1.1 // indirect
 	github.com/cespare/xxhash/v2 v2.1.1 // indirect
-	github.com/confio/ics23/go v0.6.6 // indirect
-	github.com/cosmos/cosmos-sdk v0.39.1 // indirect
 	github.com/cosmos/go-bip39 v0.0.0-20180819234021-555e2067c45d // indirect
 	github.com/davecgh/go-spew v1.1.1 // indirect
 	github.com/dchest/siphash v1.2.1 // indirect
 	github.com/deckarep/golang-set v1.7.1 // indirect
 	github.com/drand/kyber v1.1.4 // indirect
 	github.com/emirpasic/gods v1.12.0 // indirect
-	github.com/ethereum/go-ethereum v1.9.25 // indirect
 	github.com/gcash/bchd v0.16.5 // indirect
 	github.com/gcash/bchlog v0.0.0-20180913005452-b4f036f92fa6 // indirect
 	github.com/gcash/bchutil v0.0.0-20200506001747-c2894cd54b33 // indirect
@@ -74,10 +77,7 @@ require (
 	github.com/stretchr/objx v0.2.0 // indirect
 	github.com/stretchr/testify v1.7.0 // indirect
 	github.com/switcheo/tendermint v0.34.14-2 // indirect
-	github.com/tendermint/go-amino v0.15.1 // indirect
 	github.com/tendermint/iavl v0.14.0 // indirect
-	github.com/tendermint/tendermint v0.33.7 // indirect
-	github.com/tendermint/tm-db v0.5.1 // indirect
 	github.com/valyala/bytebufferpool v1.0.0 // indirect
 	github.com/zquestz/grab v0.0.0-20190224022517-abcee96e61b1 // indirect
 	golang.org/x/net v0.0.0-20211112202133-69e39bad7dc2 // indirect
